@@ -356,12 +356,16 @@ impl<Db: Database> StorageManager<Db> {
         // cache miss, read direct from db
         self.increment_metric(METRIC_GET);
 
+        let generation = match &self.cache {
+            Some(cache) => cache.write_generation().await,
+            None => 0,
+        };
         let record = self
             .tic_toc(METRIC_READ_TIME, self.db.get::<St>(id))
             .await?;
         if let Some(cache) = &self.cache {
-            // cache the result
-            cache.put(&record).await;
+            // cache the result, unless something was written while the database was answering
+            cache.fill(&record, generation).await;
         }
         Ok(record)
     }
@@ -406,13 +410,17 @@ impl<Db: Database> StorageManager<Db> {
         if !key_set.is_empty() {
             // these are items to be retrieved from the backing database (not in pending transaction or in the object cache)
             let keys = key_set.into_iter().collect::<Vec<_>>();
+            let generation = match &self.cache {
+                Some(cache) => cache.write_generation().await,
+                None => 0,
+            };
             let mut results = self
                 .tic_toc(METRIC_READ_TIME, self.db.batch_get::<St>(&keys))
                 .await?;
 
-            // cache the db returned results
+            // cache the db returned results, unless something was written while the database was answering
             if let Some(cache) = &self.cache {
-                cache.batch_put(&results).await;
+                cache.batch_fill(&results, generation).await;
             }
 
             records.append(&mut results);
@@ -462,6 +470,10 @@ impl<Db: Database> StorageManager<Db> {
         username: &AkdLabel,
         flag: ValueStateRetrievalFlag,
     ) -> Result<ValueState, StorageError> {
+        let generation = match &self.cache {
+            Some(cache) => cache.write_generation().await,
+            None => 0,
+        };
         let maybe_db_state = match self
             .tic_toc(METRIC_READ_TIME, self.db.get_user_state(username, flag))
             .await
@@ -495,7 +507,9 @@ impl<Db: Database> StorageManager<Db> {
         if let Some(state) = maybe_db_state {
             // cache the item for future access
             if let Some(cache) = &self.cache {
-                cache.put(&DbRecord::ValueState(state.clone())).await;
+                cache
+                    .fill(&DbRecord::ValueState(state.clone()), generation)
+                    .await;
             }
 
             Ok(state)
